@@ -104,12 +104,33 @@ func (f *finder) Visit(node ast.Node) (w ast.Visitor) {
 		return f
 	}
 	_, filename := filepath.Split(file.Name())
-	if filename == derivedFilename {
+	if filename == derivedFilename && !f.declaredByUser(fn.Name) {
 		f.derived = append(f.derived, call)
 		return f
 	}
 	f.funcNames[fn.Name] = struct{}{}
 	return f
+}
+
+// declaredByUser returns whether a source file other than derived.gen.go declares a function with this name.
+// Such a function was generated once and is written by hand now: the older declaration in derived.gen.go
+// only wins the name lookup because its file is loaded first.
+func (f *finder) declaredByUser(name string) bool {
+	for _, astFile := range f.pkgInfo.Files {
+		file := f.program.Fset.File(astFile.Pos())
+		if file == nil {
+			continue
+		}
+		if _, fname := filepath.Split(file.Name()); fname == derivedFilename {
+			continue
+		}
+		for _, d := range astFile.Decls {
+			if fd, ok := d.(*ast.FuncDecl); ok && fd.Recv == nil && fd.Name.Name == name {
+				return true
+			}
+		}
+	}
+	return false
 }
 
 type call struct {
